@@ -97,6 +97,8 @@ func checkC01(c *Ctx) {
 	c1Escaper(c, "R1.2")
 	c1Pairing(c, "R1.3")
 	c1Separators(c, "R1.5")
+	c.Rule("R1.14", "pooled buffers are released at most once (a buffer freed twice is handed to two entries at the same time, whose bytes then interleave)", 3)
+	c.As(map[string]string{"R8.4": "R1.14"}, func() { c8SingleRelease(c) })
 	c1NilGuards(c, "R1.6", true)
 	c1Fallback(c, "R1.7")
 	c1Errors(c, "R1.8")
